@@ -623,25 +623,46 @@ pub fn shrink(f: ScenarioFn, cfg: &Cfg, start: Vec<u64>, sig: &(String, String, 
 // ------------------------------------------------------------------------------------------------
 // replay files
 
-pub fn write_replay(dir: &str, f: ScenarioFn, cfg: &Cfg, seed: u64, run: u64, choices: &[u64], original_len: usize, shrink_execs: u64) -> Result<(String, Violation), HarnessError> {
-    let out = run_one(f, cfg, Choices::replaying(choices.to_vec()), true);
-    let v = match out.result {
-        Err(v) => v,
-        Ok(()) => return Err(HarnessError("minimised vector no longer fails".into())),
-    };
+pub fn write_replay(dir: &str, f: ScenarioFn, cfg: &Cfg, seed: u64, run: u64, choices: &[u64], original: &[u64], observed: &Violation, shrink_execs: u64) -> Result<(String, Violation), HarnessError> {
+    // Re-execute with full logging.  If the code under test consults ambient state (a random
+    // hasher, a clock) the minimised vector, or even the original one, may not fail again: the
+    // violation was still observed, so it is reported, with the replay file marked accordingly.
+    let sig = observed.sig();
+    let mut chosen: Option<(Vec<u64>, RunOut)> = None;
+    for (cand, tries) in [(choices, 3), (original, 25)] {
+        for _ in 0..tries {
+            let out = run_one(f, cfg, Choices::replaying(cand.to_vec()), true);
+            if matches!(&out.result, Err(v) if v.sig() == sig) {
+                chosen = Some((cand.to_vec(), out));
+                break;
+            }
+        }
+        if chosen.is_some() {
+            break;
+        }
+    }
     std::fs::create_dir_all(dir).map_err(|e| HarnessError(format!("{dir}: {e}")))?;
     let path = format!("{dir}/{}-{}-{}-{}.json", cfg.prop, cfg.scenario, seed, run);
+    let (vec, v, hash, lines, nondet) = match chosen {
+        Some((vec, out)) => {
+            let nondet = vec.len() == original.len() && vec != choices;
+            let v = out.result.err().unwrap();
+            (vec, v, out.hash, out.lines, nondet)
+        }
+        None => (original.to_vec(), observed.clone(), 0, vec!["(the violation was observed during the batch but did not recur in 28 re-executions of the same choice vector: the code under test is not a pure function of its inputs)".to_string()], true),
+    };
     let doc = json!({
         "format": 1,
         "cfg": cfg.to_json(),
         "seed": seed,
         "run": run,
-        "choices": choices,
-        "original_choice_count": original_len,
+        "choices": vec,
+        "original_choice_count": original.len(),
         "shrink_executions": shrink_execs,
         "violation": v.to_json(),
-        "event_log_hash": format!("{:016x}", out.hash),
-        "trace": out.lines,
+        "nondeterministic": nondet,
+        "event_log_hash": format!("{:016x}", hash),
+        "trace": lines,
     });
     std::fs::write(&path, serde_json::to_string_pretty(&doc).unwrap()).map_err(|e| HarnessError(format!("{path}: {e}")))?;
     Ok((path, v))
